@@ -68,6 +68,9 @@ class AshesRenderFactory(object):
             status = 200
             template = self.env.load(template_path)
             content = template.render(context)  # TODO: pretty errors?
+            if isinstance(content, unicode):
+                # context values can carry any text, including lone surrogates
+                content = content.encode('utf-8', 'backslashreplace')
             return Response(content, status=status, mimetype=mimetype)
 
         return ashes_render
